@@ -235,6 +235,19 @@ def run(ctx):
         samples += (res.get("samples") or [])[:1]
         log("C19 replay %-9s walks=%d steps=%d mismatches=%d extra=%s" % (p, res["replayed"], res["steps"], len(res["mismatches"]),
                                                                           res.get("extra")))
+    # one note per divergence class, with the number of harness processes that saw it
+    classes = {}
+    for _p, res in results:
+        for m in res.get("mismatches", []):
+            if m["class"].startswith("L2:"):
+                classes[m["class"]] = classes.get(m["class"], 0) + 1
+    uniq, seen = [], set()
+    for n in ctx.notes:
+        c = n[len("DIVERGENCE "):].split(": ", 1)[0]
+        if c not in seen:
+            seen.add(c)
+            uniq.append(n[:400])
+    ctx.notes[:] = uniq
     r0 = dict(results)["ed25519"]
     if not r0["mismatches"] and r0["steps"] < steps_total:
         raise MachineryError("replay executed %d steps for %d walk steps" % (r0["steps"], steps_total))
@@ -246,7 +259,7 @@ def run(ctx):
         checker_cmd="tlc C19_MC.tla (template C19_MC.cfg; instances %s)" % ", ".join(i[0] for i in mcs + eds),
         instances=len(mcs) + len(eds), replay_instances=[i[0] for i in eds], replay_transitions_in_graphs=edges_total,
         replay_walks=walks_total, replay_steps_executed=steps, replay_distinct_classes=distinct,
-        key_profiles=profiles, edge_kinds=len(kinds), divergences_L2=div, notes=ctx.notes[:10],
+        key_profiles=profiles, edge_kinds=len(kinds), divergences_L2=div, divergence_classes=classes, notes=ctx.notes[:12],
         rule=r0.get("rule"), **extra)
     return {"level": "model_checking", "coverage": cov, "assumptions": [
         "symbolic cryptography: HMAC-SHA256, the four signature schemes of core/crypto, base64 and encoding/json are a trusted base; "
